@@ -45,6 +45,31 @@ def check_body(rep, key, exp, im, allowed_types, cfg):
         sa = [a for a in ce.get("args", []) if a.get("t") == "dyn"]
         if sa:
             rep.add("R-ZERO", key + " dyn-callee", "generated body calls `%s` on a trait object" % d, where=exp.label())
+    # 1b. nothing is called besides the delegate and the two zero-cost adapters (`.await`'s IntoFuture on
+    #     the delegate's future, and the field accessor <Impl<T> as AsRef<T>>::as_ref): a clone / conversion
+    #     of the application or of an argument is a cost the direct call does not have
+    delegates = 0
+    for c in all_calls(im["body"]):
+        ce = callee_of(c)
+        d = ce.get("def") or ""
+        r = ce.get("resolved")
+        rd = r.get("def") if isinstance(r, dict) else ""
+        if d == "core::future::into_future::IntoFuture::into_future":
+            continue
+        if d == "core::convert::AsRef::as_ref":
+            a0 = (ce.get("args") or [{}])[0]
+            if a0.get("t") == "adt" and a0.get("path") == "implementation::Impl":
+                continue
+            rep.add("R-ZERO", key + " extra-call", "generated body converts through `AsRef` on `%s`, which is not entrait's `Impl<T>` accessor" % a0.get("path", a0.get("t")),
+                    where=exp.label())
+            continue
+        if d.startswith(("crate::", "<crate::")) or rd.startswith(("crate::", "<crate::")):
+            delegates += 1
+            continue
+        rep.add("R-ZERO", key + " extra-call", "generated body calls `%s`: neither the delegate nor a zero-cost adapter" % (rd or d), where=exp.label())
+    if delegates != 1:
+        rep.add("R-ZERO", key + " delegate-count", "generated body contains %d calls into the user's crate, expected exactly one (the delegate)" % delegates,
+                where=exp.label())
     # 2. unsizing coercions
 
     def adj(n):
